@@ -4,6 +4,7 @@
 import FileD.Lemmas.Pool
 import FileD.Lemmas.PoolStd
 import FileD.Lemmas.Stream
+import FileD.Lemmas.LockOrder
 namespace FileD.PropsC04
 open FileD FileD.Pool
 
@@ -340,5 +341,35 @@ example : ∃ st x, TS.run step? (init 1 1)
   ⟨_, _, rfl, rfl, by decide⟩
 
 end streams
+
+/-! ## lock order stream.mu / streamer.blockedMu (blockGet, put, heartbeat) -/
+section lockorder
+open FileD.LockOrder
+
+/-- **no_wait_cycle_copy_then_unlock**: with the heartbeat of /repo (copy `blocked` under blockedMu,
+    release it, then call tryUnblock) no reachable state of owner ‖ heartbeat ‖ putter has a wait-for
+    cycle; some thread can always move; and whoever holds blockedMu can always take its next step
+    (blockedMu is innermost: nobody acquires a stream.mu while holding it). Every interleaving. -/
+theorem no_wait_cycle_copy_then_unlock (st : LockOrder.St)
+    (h : TS.Reachable (LockOrder.step? false) {} st) :
+    waitCycle st = false ∧
+    [Tid.owner, .hb, .putter].any (fun t => (LockOrder.step? false st t).isSome) = true ∧
+    (∀ t, holds st t .B = true → (LockOrder.step? false st t).isSome = true) := by
+  have hok := ok_reachable false st h
+  exact ⟨no_cycle_of_ok st hok, some_step_of_ok st hok, fun t hb => b_holder_moves st t hok hb⟩
+
+/-- a heartbeat that walks `blocked` while HOLDING blockedMu inverts the order (blockGet holds
+    stream.mu when it calls makeBlocked / resetBlocked): the owner, woken by a put, re-locks its
+    stream.mu and waits for blockedMu in resetBlocked; the heartbeat holds blockedMu and waits for that
+    stream.mu in tryUnblock; the next putter waits for the stream.mu too — nobody can move, for ever.
+    Exercised on the real streamer with its real heartbeat goroutine by `c04.hbstress`. -/
+theorem walk_under_lock_deadlocks :
+    ∃ st, TS.Reachable (LockOrder.step? true) {} st ∧ waitCycle st = true ∧
+      (∀ t, LockOrder.step? true st t = none) := by
+  refine ⟨{ o := .lockBr, h := .lockSB, q := .lockS, blocked := true },
+    ⟨[.owner, .owner, .owner, .owner, .putter, .putter, .hb, .hb, .owner], by decide⟩, by decide, ?_⟩
+  intro t; cases t <;> decide
+
+end lockorder
 
 end FileD.PropsC04
